@@ -154,7 +154,10 @@ class Vector(object):
 
     def angle(self, other):
         """Returns the angle (in radians) enclosed by both vectors."""
-        return math.acos((self * other) / (self.length() * other.length()))
+        cos = (self * other) / (self.length() * other.length())
+        # rounding can push the cosine of (anti-)parallel vectors slightly
+        # outside [-1, 1], where acos is undefined
+        return math.acos(max(-1.0, min(1.0, cos)))
 
     def normalized(self):
         """Return the normalized version of the vector, that is a vector
